@@ -199,6 +199,7 @@ func runC02(c *Ctx, r *Report) {
 	r.floor("entries of the accent table", n, 300)
 	defer c02r3(c, r)
 	defer c02r5(c, r)
+	defer c02r6(c, r)
 	defer c13r3(c, r) // workers of a cancelled scan must be gone before their slabs are handed out again (crash otherwise)
 	defer func() {
 		r.rule("C02-R4", "H + A (shared with C03-R2)", "P1", "slab-independent bound on the pattern length before the int16 score matrices (and the slab-size headroom of C03-R2)", "matching crashes (index out of range in the back-trace) for a very long pattern when no slab / a larger slab is used")
@@ -344,8 +345,10 @@ func runC03(c *Ctx, r *Report) {
 		r.floor("alloc16 calls in FuzzyMatchV2", n, 3)
 	}
 	c03r3(c, r)
+	c03r4(c, r)
 	c05r9(c, r) // the recurrence reads only cells of this call: boundary cells of shifted windows are initialised
 	c02r5(c, r) // 'over the whole line': the pre-filter window must not cut off upper-case occurrences
+	c13r3(c, r) // two scans must never fill the same score matrices at once
 	mk := l.Fn("util", "MakeSlab")
 	r.curRule = "C03-R2"
 	nMk := 0
@@ -426,6 +429,7 @@ func runC05(c *Ctx, r *Report) {
 	c05r3(c, r)
 	c13r3(c, r)   // a cancelled scan joins its workers before the slabs are reused
 	c05r9(c, r)   // no score cell is read that this call did not write
+	c05r10(c, r)  // ... including the back-trace's look-ahead
 	c02r5(c, r)   // bytes vs runes: the byte-only pre-filter must not change the result
 	c04r3(c, r)   // order purity: merge must agree with the per-partition sort
 	c08r5(c, r)   // per-item tokens must not survive a change of --nth
@@ -695,7 +699,7 @@ func c03r3(c *Ctx, r *Report) {
 func c02r3(c *Ctx, r *Report) {
 	l := c.L
 	r.rule("C02-R3", "A (def-use guard agreement)", "P1",
-		"in exactMatchNaive the per-match `bonus` is computed (bonusAt) only when the pattern's first character is being compared (pidx_ == 0); every test of that bonus against bonusBoundary that can reject a character inside the boundaryCheck branch is under the same pidx_ == 0 guard",
+		"in exactMatchNaive the per-match `bonus` is computed (bonusAt) only when the pattern's first character is being compared (pidx_ == 0); every test of that bonus against bonusBoundary that can reject a character inside the boundaryCheck branch is under the same pidx_ == 0 guard; no comparison inside the boundaryCheck branch uses a raw scan counter (an argument of indexAt) instead of its direction-mirrored value",
 		"scanning backward (--scheme=path, --tiebreak=end) the first pattern character is seen last: a test of the not-yet-computed bonus rejects every candidate and 'word' terms match nothing")
 	f := l.Fn("algo", "exactMatchNaive")
 	bonusAt := l.Fn("algo", "bonusAt")
@@ -772,6 +776,41 @@ func c02r3(c *Ctx, r *Report) {
 		r.check(guarded, fmt.Sprintf("algo.exactMatchNaive:boundary bonus test #%d", n), in.Pos(), f, "the boundary-bonus test is evaluated under the guard where the bonus was computed (first pattern character)", "the bonus is tested on every character: in a backward scan it is still zero when the last pattern character is compared")
 	})
 	r.floor("boundary-bonus tests inside the boundaryCheck branch", n, 1)
+
+	// direction-mirrored indices: inside the boundaryCheck branch positions are tested through indexAt(..)
+	indexAt := l.Fn("algo", "indexAt")
+	if indexAt == nil {
+		r.unest("algo.indexAt", token.NoPos, nil, "anchor indexAt", "cannot resolve")
+		return
+	}
+	raw := map[ssa.Value]bool{} // the scan counters handed to indexAt
+	eachInstr(f, func(in ssa.Instruction) {
+		if call, ok := in.(*ssa.Call); ok && call.Common().StaticCallee() == indexAt {
+			raw[call.Call.Args[0]] = true
+		}
+	})
+	nPos := 0
+	eachInstr(f, func(in ssa.Instruction) {
+		b, ok := in.(*ssa.BinOp)
+		if !ok {
+			return
+		}
+		switch b.Op {
+		case token.EQL, token.NEQ, token.LSS, token.LEQ, token.GTR, token.GEQ:
+		default:
+			return
+		}
+		inBoundary, _ := pc.Implies(in.Block(), func(lits []Lit) bool {
+			return hasLit(lits, func(a ssa.Value, v bool) bool { return a == ssa.Value(boundaryParam) && v })
+		})
+		if !inBoundary {
+			return
+		}
+		nPos++
+		r.check(!raw[b.X] && !raw[b.Y], fmt.Sprintf("algo.exactMatchNaive:position test #%d uses the mirrored index", nPos), in.Pos(), f,
+			"positions tested in the boundaryCheck branch are the direction-mirrored ones (indexAt results)", "a word-boundary test compares the raw scan counter: in a backward scan it refers to the other end of the pattern/text")
+	})
+	r.floor("position tests inside the boundaryCheck branch", nPos, 3)
 }
 
 // c03PatternGuard: slab-independent int16 headroom — V2's matrices are reached only for len(pattern) <= K with
